@@ -390,7 +390,8 @@ def typed_leg(ns, res, rng, count):
         front = ['pandas', 'sqlite', 'csv'][n % 3]
         nrows = rng.choice([2, 3, 5, 8, 13])
         ipool = rng.choice([[3, 10, -2, 9, 100], [2 ** 53, 2 ** 53 + 1, 2 ** 53 + 2, 5], [1, 2, 3]])
-        rows = [[rng.choice(ipool), rng.choice([0.5, -1.25, 10.0, 2.75, 9.5]), rng.choice(['b', 'a', 'B', '10', '9', 'ab'])] for _ in range(nrows)]
+        # the fourth column mixes integers and floats (mutually comparable types in one key column)
+        rows = [[rng.choice(ipool), rng.choice([0.5, -1.25, 10.0, 2.75, 9.5]), rng.choice(['b', 'a', 'B', '10', '9', 'ab']), rng.choice([1, 2.5, 3, 0.5, 10, 7.25, -4, -0.75, 3])] for _ in range(nrows)]
         typed = front != 'csv'
         cell = (lambda v: v) if typed else (lambda v: str(v))
         R = [[cell(v) for v in r] for r in rows]
@@ -404,17 +405,21 @@ def typed_leg(ns, res, rng, count):
             ('select distinct count a3', lambda: [[sum(1 for r in R if r[2] == v), v] for v in dict.fromkeys(r[2] for r in R)]),
             ('select top 2 a1 order by a1 desc', lambda: [[r[0]] for r in list(reversed(sorted(R, key=lambda r: r[0])))[:2]]),
             ('select a1 order by %s limit 3' % ('a1 * -1' if typed else 'int(a1) * -1'), lambda: [[r[0]] for r in sorted(R, key=lambda r: -int(r[0]))][:3]),
+            ('select a4, NR order by %s' % ('a4' if typed else '(float(a4) if "." in a4 else int(a4))'), lambda: [[r[3], i + 1] for i, r in sorted(enumerate(R), key=lambda ir: float(ir[1][3]))]),
+            ('select a4, a3 order by %s desc' % ('a4' if typed else '(float(a4) if "." in a4 else int(a4))'), lambda: [[r[3], r[2]] for r in reversed(sorted(R, key=lambda r: float(r[3])))]),
+            ('select NR, a1 order by %s' % ('(a1 if NR % 2 else a2)' if typed else '(int(a1) if NR % 2 else float(a2))'), lambda: [[i + 1, r[0]] for i, r in sorted(enumerate(R), key=lambda ir: (int(ir[1][0]) if (ir[0] + 1) % 2 else float(ir[1][1])))]),
+            ('select distinct a4 order by %s' % ('max(a4, 2)' if typed else 'max(float(a4), 2)'), lambda: [[v] for v in dict.fromkeys(r[3] for r in sorted(R, key=lambda r: max(float(r[3]), 2)))]),
         ]
         qtext, expf = shapes[(n // 3) % len(shapes)]
         exp = expf()
         if front == 'pandas':
-            df = pd.DataFrame({'k': pd.Series([r[0] for r in rows], dtype='int64'), 'f': pd.Series([r[1] for r in rows], dtype='float64'), 's': pd.Series([r[2] for r in rows], dtype='object')})
+            df = pd.DataFrame({'k': pd.Series([r[0] for r in rows], dtype='int64'), 'f': pd.Series([r[1] for r in rows], dtype='float64'), 's': pd.Series([r[2] for r in rows], dtype='object'), 'm': pd.Series([r[3] for r in rows], dtype='object')})
             it = ns.pandas.DataframeIterator(df, normalize_column_names=True)
             conn = None
         elif front == 'sqlite':
             conn = sqlite3.connect(':memory:')
-            conn.execute('CREATE TABLE t (k INTEGER, f REAL, s TEXT)')
-            conn.executemany('INSERT INTO t VALUES (?, ?, ?)', rows)
+            conn.execute('CREATE TABLE t (k INTEGER, f REAL, s TEXT, m)')
+            conn.executemany('INSERT INTO t VALUES (?, ?, ?, ?)', rows)
             conn.commit()
             it = ns.sqlite.SqliteRecordIterator(conn, 't')
         else:
